@@ -260,9 +260,12 @@ class QuantityPoint {
     Diff x_;
 };
 
+template <typename UnitT, typename RepT>
+constexpr UnitT QuantityPoint<UnitT, RepT>::unit;
+
 template <typename Unit>
 struct QuantityPointMaker {
-    static constexpr auto unit = Unit{};
+    static constexpr Unit unit{};
 
     template <typename T>
     constexpr auto operator()(T value) const {
@@ -292,6 +295,9 @@ struct QuantityPointMaker {
         return QuantityPointMaker<decltype(unit / m)>{};
     }
 };
+
+template <typename Unit>
+constexpr Unit QuantityPointMaker<Unit>::unit;
 
 template <typename U>
 struct AssociatedUnitForPoints<QuantityPointMaker<U>> : stdx::type_identity<U> {};
